@@ -64,7 +64,8 @@ def thorough_extras(ctx: 'core.Ctx', a: argparse.Namespace) -> None:
         finally:
             shutil.rmtree(d, ignore_errors=True)
     with cf.ThreadPoolExecutor(max_workers=9) as ex:
-        for kind, rc in ex.map(one_kind, ['alpha', 'private', 'invert-if', 'flip-eq', 'else-return', 'add-else', 'extract-var', 'inline-var', 'combined']):
+        for kind, rc in ex.map(one_kind, ['alpha', 'private', 'invert-if', 'flip-eq', 'else-return', 'add-else', 'extract-var', 'inline-var', 'to-keyword', 'to-positional',
+                                          'expand-aug', 'add-logging', 'comp-to-loop', 'swap-adjacent', 'combined']):
             sysres[kind] = rc
             if rc != 0:
                 print(f'SELFTEST-WARNING {a.prop} systematic twin {kind}: exit {rc}')
@@ -117,7 +118,7 @@ def main() -> int:
         if ctx.incomplete:
             raise core.AnalysisIncomplete('; '.join(ctx.incomplete))
         ctx.floors()
-    if a.tier == 'thorough' and not ctx.violations and os.environ.get('KFV_NO_SELFTEST') != '1':
+    if a.tier == 'thorough' and not [v for v in ctx.violations if v['key'] not in known] and os.environ.get('KFV_NO_SELFTEST') != '1':
         thorough_extras(ctx, a)
     if a.replay:
         with open(a.replay) as fh:
